@@ -299,7 +299,7 @@ void syn_all(Rng& rng, int part)
 
 } // namespace
 
-std::uint64_t vfh_num_cases(bool thorough) { return VF_ENGSET == 3 ? 4 : (thorough ? 3000 : 150); }
+std::uint64_t vfh_num_cases(bool thorough) { return VF_ENGSET == 3 ? 4 : (thorough ? 30000 : 150); }
 
 void vfh_run_case(std::uint64_t idx, Rng& rng)
 {
